@@ -12,6 +12,7 @@ import (
 	"verifharness/drv/c14"
 	"verifharness/drv/c18"
 	"verifharness/drv/c20"
+	conndrv "verifharness/drv/conn"
 	execdrv "verifharness/drv/exec"
 	rxdrv "verifharness/drv/reactive"
 )
@@ -23,6 +24,7 @@ var cmds = map[string]func([]string) error{
 	"c14": c14.Main,
 	"c18": c18.Main,
 	"c20": c20.Main,
+	"conn": conndrv.Main,
 	"exec": execdrv.Main,
 	"reactive": rxdrv.Main,
 }
